@@ -641,6 +641,11 @@ def fam_derived():
     variants.append(('replace_rr', "    replace:\n      rr: (rr + r)", lambda fp, b: (
         [('x', 'de', X.add(X.add(X.div(X.sub(V('r'), V('x')), V('tau')), X.mul(X.add(V('rr'), V('r')), V('r_in'))), V('m_in2')))],
         {}, []), ""))
+    # 6. replace and add in one edit: the replacement acts on the inherited equations, NOT on the added one
+    variants.append(('replace_and_add', "    replace:\n      r_in: g\n    add:\n      - \"z' = x - z*r_in\"", lambda fp, b: (
+        [('x', 'de', X.add(X.add(X.div(X.sub(V('r'), V('x')), V('tau')), X.mul(V('rr'), V('g'))), V('m_in2'))),
+         ('z', 'de', X.sub(V('x'), X.mul(V('z'), V('r_in'))))],
+        {'g': ('const', fp()), 'z': ('state', fp())}, []), "    g: {g}\n    z: variable({z})"))
     for name, edit_yaml, mk, var_yaml in variants:
         for chain in (1, 2):
             fp = FP()
@@ -875,8 +880,10 @@ def fam_gamma_fixed():
                                                        "real kernel out of the same vectorized variable")))
     out.append(("F11x:parallel-kernels", mk(lambda fp: [E('a0/li/x', 'a1/li/u', fp(), delay=A_[0], spread=A_[1]),
                                                         E('a0/li/x', 'a1/li/u', fp(), delay=B_[0], spread=B_[1]),
-                                                        E('a1/li/x', 'a2/li/u', fp(), delay=A_[0], spread=A_[1])],
-                                            "two parallel connections a0 -> a1 with different kernels")))
+                                                        E('a1/li/x', 'a2/li/u', fp(), delay=A_[0], spread=A_[1]),
+                                                        E('a0/li/x', 'a2/li/u', fp(), delay=F(1), spread=F(2, 3))],
+                                            "two parallel connections a0 -> a1 with different kernels, and a later edge "
+                                            "out of the same variable with a third kernel")))
 
     def mk_perm(order, note):
         m = mk(lambda fp: [E('a0/li/x', 'a1/li/u', fp(), delay=A_[0], spread=A_[1]),
